@@ -834,7 +834,9 @@ pub fn gen_shapes(asm: &Asm, mach: &mut Mach, rng: &mut Rng, sh: &mut Shards, pa
         let nsp = if thorough { 4 } else { 3 };
         for (si, sp) in spellings.iter().take(nsp).enumerate() {
             // the first spelling of every pair is fixed, the others vary with the shape number
-            let sp = *sp;
+            let mut sp = *sp;
+            // (every other shape writes the zero-padded constants of the second spelling in decimal)
+            if si == 1 && n % 2 == 1 { sp.radix = Radix::Dec; }
             let _ = si;
             let regs = stress_regs(rng);
             let flags = rng.u16();
